@@ -598,6 +598,21 @@ class Interp:
                 if spec is not None and attr in spec.fields:
                     t = spec.fields[attr]
                     from .engine import _wrap, _zsort
+                    if t.startswith("opt[") and t.endswith("]"):
+                        isnone = z3.Function(f"fld_{attr}?none", ObjS, z3.BoolSort())(base.term)
+                        inner_spec = type("S", (), {"fields": {attr: t[4:-1]}})()
+                        saved = self.reg["classes"].get("$tmp")
+                        self.reg["classes"]["$tmp"] = inner_spec
+                        try:
+                            inner = self.opaque_attr(Opaque(base.term, "$tmp"), attr, st)
+                        finally:
+                            if saved is None:
+                                del self.reg["classes"]["$tmp"]
+                            else:
+                                self.reg["classes"]["$tmp"] = saved
+                        return Opt(isnone, inner)
+                    if t.startswith("arr1["):
+                        t = "seq[" + t[5:]
                     if t in ("int", "nat", "pos", "real", "bool", "str", "class") or t.startswith("opaque"):
                         f = z3.Function(f"fld_{attr}", ObjS, _zsort(t))
                         v = f(base.term)
